@@ -308,6 +308,9 @@ namespace link_layer {
 
                     commit = false;
 
+                    // LL_PHY_UPDATE_IND is the response to a LL_PHY_REQ
+                    link_layer.procedure_timeout_ = delta_time();
+
                     if ( c_to_p == phy_ll_encoding::le_unchanged_coding
                       && p_to_c == phy_ll_encoding::le_unchanged_coding )
                     {
@@ -1321,6 +1324,7 @@ namespace link_layer {
         else if ( phy_update_request_pending_ )
         {
             phy_update_request_pending_ = false;
+            procedure_timeout_ = delta_time( default_procedure_timeout_us );
 
             fill< layout_t >( out_buffer, {
                 ll_control_pdu_code, 3, LL_PHY_REQ,
@@ -1672,6 +1676,10 @@ namespace link_layer {
             else if ( ( opcode == LL_UNKNOWN_RSP && size == 2 ) || ( opcode == LL_REJECT_IND && size == 2 ) || ( opcode == LL_REJECT_EXT_IND && size == 3 ) )
             {
                 bool opcode_contains_request = opcode == LL_UNKNOWN_RSP || opcode == LL_REJECT_EXT_IND;
+
+                // the PHY update procedure, started by this device, ends here
+                if ( opcode_contains_request && body[ 1 ] == LL_PHY_REQ )
+                    procedure_timeout_ = delta_time();
 
                 if ( !opcode_contains_request || ( opcode_contains_request && body[ 1 ] == LL_CONNECTION_PARAM_REQ ) )
                 {
